@@ -82,6 +82,13 @@ var errVHandshake = errors.New("tls: handshake failure")
 func vtlsHandshake(inner net.Conn) error {
 	switch vtlsOutcome[inner] {
 	case 1:
+		// the errors crypto/tls really returns: a plain alert error, or a RecordHeaderError with or without its Conn
+		switch vsymChoice("handshake-error", 3) {
+		case 1:
+			return tls.RecordHeaderError{Msg: "first record does not look like a TLS handshake"}
+		case 2:
+			return tls.RecordHeaderError{Msg: "first record does not look like a TLS handshake", Conn: inner}
+		}
 		return errVHandshake
 	case 2:
 		vsymAwait(&vtlsNever)
